@@ -343,6 +343,24 @@ pub mod shim {
         }
         None
     }
+    /// contract of `s.iter().any(f)` (N2)
+    pub fn any_ref<T, F: Fn(&T) -> bool>(s: &[T], f: F) -> (r: bool)
+        requires forall|i: int| 0 <= i < s@.len() ==> f.requires((&#[trigger] s@[i],)),
+        ensures
+            r ==> exists|i: int| 0 <= i < s@.len() && f.ensures((&#[trigger] s@[i],), true),
+            !r ==> forall|i: int| 0 <= i < s@.len() ==> f.ensures((&#[trigger] s@[i],), false),
+    {
+        let mut i = 0;
+        while i < s.len()
+            invariant i <= s@.len(), forall|k: int| 0 <= k < s@.len() ==> f.requires((&#[trigger] s@[k],)),
+                forall|j: int| 0 <= j < i ==> f.ensures((&#[trigger] s@[j],), false),
+            decreases s@.len() - i
+        {
+            if f(&s[i]) { return true; }
+            i = i + 1;
+        }
+        false
+    }
     /// contract of `s.iter().rposition(f)` for any element type (N2)
     pub fn rposition_ref<T, F: Fn(&T) -> bool>(s: &[T], f: F) -> (r: Option<usize>)
         requires forall|x: &T| f.requires((x,)),
